@@ -87,7 +87,9 @@ def main():
             r = json.loads(l)
             verify[r["seed"]] = r
     matrix = {}
-    for f in sorted(glob.glob(os.path.join(src, "matrix*.jsonl")) + glob.glob(os.path.join(src, "run*.jsonl"))):
+    files = sorted(glob.glob(os.path.join(src, "matrix*.jsonl"))) + sorted(glob.glob(os.path.join(src, "run_own*.jsonl"))) + \
+        sorted(glob.glob(os.path.join(src, "run[0-9]*.jsonl")))
+    for f in files:
         for l in open(f):
             try:
                 r = json.loads(l)
